@@ -85,7 +85,7 @@ def cases_for(tier):
                                                                            "tile_columns", "tile_rows", "screen_content_mode", "palette_level", "cdef_level",
                                                                            "enable_restoration_filtering", "super_block_size", "hierarchical_levels", "qp"],
                           base_extra={"superres_denom": 12, "superres_kf_denom": 12})
-    cs += streams.sb128_filters(tier == "thorough") + streams.tile_grids(tier == "thorough")
+    cs += streams.sb128_filters(tier == "thorough") + streams.tile_grids(tier == "thorough") + streams.palette_blocks(tier == "thorough")
     if tier == "thorough":
         cs += streams.bound01(sizes=((144, 112),), contents=("noise", "grad"), n=7)
         cs += streams.cross_depth_sb_pipe_preset()
